@@ -219,6 +219,12 @@ def run(ctx):
         # failures can be pinned input by input; VERIF_SEED varies the identifier spellings they are concretized with
         for s, ty, _ in grammargen.cover_texts(ctx, d, variants=2 if thorough else 1):
             work.append((s, d, 'production-cover', ' '.join(ty)))
+        # ... and once more with edge spellings of the value-carrying tokens (0, empty strings, quoted names); fixed spellings,
+        # keyed by the text itself
+        seen_plain = {w_[0] for w_ in work}
+        for s, ty, _ in grammargen.cover_texts(ctx, d, variants=3, edge=True, seed=POOL_SEED):
+            if s not in seen_plain:
+                work.append((s, d, 'production-cover-edge', s))
         gen = grammargen.texts(ctx, d, (300 if thorough else 14) if d == 'mindsdb' else (100 if thorough else 5), seed=POOL_SEED)
         for s, ty, _ in gen:
             work.append((s, d, 'grammar-sentence', ' '.join(ty)))
